@@ -92,7 +92,7 @@ theorem full_queue_reported_track (cfg : Cfg) (n : Nat) (s : State) (p : PinSpec
   simp only [hk, ↓reduceIte]
   obtain ⟨i, h1, h2, h3, h4⟩ := enqueue_status cfg
     { s with shared := upd s.shared p.cid (some p), failed := upd s.failed p.cid false } p .pin (by intro e; cases e)
-  simp only [reported, hk, observe, statusOf, h1]
+  simp only [reported, instrOf, hk, observe, statusOf, h1]
   cases hr : (enqueue cfg { s with shared := upd s.shared p.cid (some p), failed := upd s.failed p.cid false } p .pin).2 with
   | nil =>
     rcases h4 hr with hp | hp <;> simp [toRetCode, opStatus, h2, hp]
@@ -105,7 +105,7 @@ theorem full_queue_reported_untrack (cfg : Cfg) (n : Nat) (s : State) (c : Nat) 
   obtain ⟨i, h1, h2, h3, h4⟩ := enqueue_status cfg
     { s with shared := upd s.shared c none, failed := upd s.failed c false } (pinCid c) .unpin (by intro e; cases e)
   have h1' : (enqueue cfg { s with shared := upd s.shared c none, failed := upd s.failed c false } (pinCid c) .unpin).1.cur c = some i := h1
-  simp only [reported, observe, statusOf, h1']
+  simp only [reported, instrOf, observe, statusOf, h1']
   cases hr : (enqueue cfg { s with shared := upd s.shared c none, failed := upd s.failed c false } (pinCid c) .unpin).2 with
   | nil =>
     rcases h4 hr with hp | hp <;> simp [toRetCode, opStatus, h2, hp]
@@ -123,7 +123,7 @@ theorem full_queue_reported_recover (cfg : Cfg) (n : Nat) (s : State) (c : Nat) 
     intro typ ht p hp
     obtain ⟨i, h1, h2, h3, h4⟩ := enqueue_status cfg s p typ ht
     rw [hp] at h1
-    simp only [reported, observe, statusOf, h1]
+    simp only [reported, instrOf, observe, statusOf, h1]
     cases hr : (enqueue cfg s p typ).2 with
     | nil =>
       rcases h4 hr with hp | hp <;> cases typ <;> simp [toRetCode, opStatus, h2, hp] at ht ⊢
@@ -133,7 +133,7 @@ theorem full_queue_reported_recover (cfg : Cfg) (n : Nat) (s : State) (c : Nat) 
   case pinError => exact key .pin (by intro e; cases e) _ (recPin_cid h c)
   case unexpectedlyUnpinned => exact key .pin (by intro e; cases e) _ (recPin_cid h c)
   case unpinError => exact key .unpin (by intro e; cases e) _ rfl
-  all_goals simp [reported, toRetCode, observe, hs]
+  all_goals simp [reported, instrOf, toRetCode, observe, hs]
 
 /-! ### the deduplicated re-track with a different mode (suspected defect, refuted)
 
